@@ -254,3 +254,17 @@ pub fn in_range(k: &[u8], lo: Lo, lok: &[u8], hi: Hi, hik: &[u8]) -> bool {
     };
     a && b
 }
+
+/// Label family: for every byte b, key sets in which b labels a node with a
+/// single transition in both single-transition node forms (the common-input
+/// table is only used there), with and without outputs.
+pub fn label_family() -> Vec<(String, Vec<Kv>)> {
+    let mut v = vec![];
+    for b in 0..=255u8 {
+        v.push((format!("label-{:02x}-single", b), vec![(vec![b], 0)]));
+        v.push((format!("label-{:02x}-chain", b), vec![(vec![b, b, b], 0)]));
+        v.push((format!("label-{:02x}-valued", b), vec![(vec![b, b'a'], 300), (vec![b, b'b', b], 5)]));
+        v.push((format!("label-{:02x}-prefix", b), vec![(vec![], 9), (vec![b], 2), (vec![b, b], 70_000)]));
+    }
+    v
+}
